@@ -37,8 +37,10 @@ static const int triples_q[][3] = { { 1, 16, 17 }, { 0, 33, 255 }, { 15, 31, 32 
 static const int triples_t[][3] = { { 1, 16, 17 }, { 0, 33, 255 }, { 15, 31, 32 }, { 256, 1, 16385 }, { 12, 28, 300 }, { 16383, 16384, 40000 }, { 16384, 0, 1 }, { 17, 17, 17 } };
 static const int triples_d[][3] = { { 1, 16, 17 }, { 0, 33, 255 }, { 15, 31, 32 }, { 256, 1, 1000 }, { 12, 28, 300 } };
 
-enum { E_FLIP = 0, E_TRUNC, E_EXTEND, E_TYPE, E_VER, E_LEN, E_SWAP, E_DROP, E_DUP, E_INSERT, E_REFLECT, E_SPLICE, E_NONE, E_PADSPLICE, E_RESEQ, E_NK };
-static const char *ename[] = { "bitflip", "truncate", "extend", "type", "version", "length", "swap", "drop", "dup", "insert-replay", "reflect", "splice", "none", "cbc-padding-rewrite", "replay-with-rewritten-header-sequence" };
+enum { E_FLIP = 0, E_TRUNC, E_EXTEND, E_TYPE, E_VER, E_LEN, E_SWAP, E_DROP, E_DUP, E_INSERT, E_REFLECT, E_SPLICE, E_NONE, E_PADSPLICE, E_RESEQ, E_PLAININS, E_NK };
+/* E_PLAININS (TLS): an UNPROTECTED record inserted before record j (a = 0: ChangeCipherSpec; 1: warning close_notify alert;
+ * 2: fatal alert; b = 1: the record that would have followed is dropped, i.e. replaced) */
+static const char *ename[] = { "bitflip", "truncate", "extend", "type", "version", "length", "swap", "drop", "dup", "insert-replay", "reflect", "splice", "none", "cbc-padding-rewrite", "replay-with-rewritten-header-sequence", "plaintext-record-inserted" };
 static int cbc_mac_len(const char *prot)
 {
     if (strncmp(prot, "cbc", 3)) return 0;
@@ -156,6 +158,14 @@ static void build_edits(gctx_t *g)
         for (j = 0; j <= n; j++)
         {
             add_edit(g, E_INSERT, i, j, 0, 0);  /* copy of record i inserted before position j */
+        }
+        if (i == 0 && !g->dtls)
+        {
+            int a, b;
+            for (j = 0; j <= n; j++)
+                for (a = 0; a < 3; a++)
+                    for (b = 0; b < 2; b++)
+                        if (!(b && j == n)) add_edit(g, E_PLAININS, 0, j, a, b);
         }
         for (j = i + 1; j < n; j++)
         {
@@ -288,6 +298,24 @@ static int apply_edit(gctx_t *g, const edit_t *e, unit_t *u, int *first_mod)
             if (i == e->j)
             {
                 COPY(e->i, 1);
+            }
+            if (i < N) COPY(i, 0);
+        }
+        *first_mod = e->j;
+        break;
+    case E_PLAININS:
+        for (i = 0; i <= N; i++)
+        {
+            if (i == e->j)
+            {
+                static const unsigned char pccs[6] = { 20, 3, 3, 0, 1, 1 }, pclose[7] = { 21, 3, 3, 0, 2, 1, 0 }, pfatal[7] = { 21, 3, 3, 0, 2, 2, 40 };
+                const unsigned char *src = e->a == 0 ? pccs : e->a == 1 ? pclose : pfatal;
+                int sl = e->a == 0 ? 6 : 7;
+                u[n].p = malloc(64); memcpy(u[n].p, src, (size_t) sl); u[n].len = sl; u[n].modified = 1; n++;
+                if (e->b && i < N)
+                {
+                    continue;
+                }
             }
             if (i < N) COPY(i, 0);
         }
@@ -599,6 +627,10 @@ static void run_case(void *ctx, mx_result_t *r)
         else if (complete_mod_presented && !recv_dead(g))
         {
             sym = "modified-record-not-fatal";
+        }
+        else if (complete_mod_presented && e->kind == E_PLAININS && e->a == 1 && rs->ssl->err == SSL_ALERT_NONE && rs->got_alert_lvl != SSL_ALERT_LEVEL_FATAL && rs->err_rc >= 0)
+        {
+            sym = "forged-plaintext-close-notify-reported-as-orderly-closure";
         }
         else if (complete_mod_presented && g->w.wire[recv].n == 0 && !rs->closed)
         {
